@@ -773,7 +773,7 @@ def atom_subst(a, mapping):
 
 
 # --------------------------------------------------------------------------- smart constructors
-REAL_FNS = {"arcsin", "log10", "log", "angle", "unwrap", "cos", "sin", "nearest", "trunc", "floor", "ceil",
+REAL_FNS = {"arcsin", "log10", "log", "angle", "unwrap", "unwrap1", "unwrap1d", "cos", "sin", "nearest", "trunc", "floor", "ceil",
             "abs", "min", "max", "mod", "sign"}
 
 
